@@ -310,7 +310,6 @@ static void run_cond(int timed_mode)
             model_bcast_pre();
             ABT_OK(ABT_cond_broadcast(S.cv));
             model_bcast_post();
-            sim_progress();
         }
         unlock(&me);
         ABT_OK(ABT_thread_yield());
